@@ -298,12 +298,12 @@ def corpus():
         }
 
     out = []
-    # D1: A->[B,C], C->[B]
+    # D1 (fixed 71bd5c0): A->[B,C], C->[B]
     for kind in ("int1", "obj", "task"):
         out.append({"kind": kind, "ops": [{"op": "init", "map": [[0, [1, 2]], [2, [1]]]}, q(range(3), 3)]})
-    # D2: skip edge from an ancestor: bfs(2) must reach 1
+    # D2 (fixed a5de234): skip edge from an ancestor: bfs(2) must reach 1
     out.append({"kind": "job", "ops": [{"op": "init", "map": [[0, [1, 2]], [2, [1]]]}, q(range(3), 3)]})
-    # D3: remove keeps the dangling child
+    # D3 (fixed ce9bde1): remove must not keep a dangling child
     out.append(
         {
             "kind": "int1",
